@@ -44,4 +44,22 @@ def merge (key : α → κ) (a b : List (α × β)) : List (α × β) := b.foldl
 
 def ofList (key : α → κ) (l : List (α × β)) : List (α × β) := merge key [] l
 
+/-! ### entry lists that are NOT ordered maps (a repeated key): what the later entry is -/
+
+/-- the LAST entry with key `k` -/
+def getLast (key : α → κ) : List (α × β) → κ → Option (α × β)
+  | [], _ => none
+  | e :: es, k =>
+    match getLast key es k with
+    | some x => some x
+    | none => if key e.1 = k then some e else none
+
+/-- position of the LAST entry with key `k` -/
+def lidx (key : α → κ) : List (α × β) → κ → Option Nat
+  | [], _ => none
+  | e :: es, k =>
+    match lidx key es k with
+    | some i => some (i + 1)
+    | none => if key e.1 = k then some 0 else none
+
 end Pcore.Coll.OMap
